@@ -496,7 +496,7 @@ RULES.append(m6)
 
 @rule("MC", doc="must-call census: no function of this property's files has gained an early exit in front of work it always did (every crate-local call that lay on all paths to a normal return in the reviewed tree still does)")
 def mc(ctx):
-    C.must_call_census(ctx, ctx.lib(), ['src/rewrite/ematch.rs', 'src/rewrite/mod.rs', 'src/rewrite/pattern.rs', 'src/egraph/mod.rs', 'src/egraph/union.rs'])
+    C.must_call_census(ctx, ctx.lib(), ['src/rewrite/ematch.rs', 'src/rewrite/mod.rs', 'src/rewrite/pattern.rs', 'src/egraph/mod.rs', 'src/egraph/union.rs', 'src/egraph/find.rs'])
 
 
 RULES.append(mc)
